@@ -28,7 +28,7 @@ CHECKS = {
   'C14': ('model_checking',
           'TLA+ spec GinParse.tla (streaming recursive parse vs fold over the flattened text; ordered file resolution) model-checked with TLC; TLC-exported file stores materialised on disk / in a memory reader and parsed by gin',
           'TLC checks for every store of up to 3 files x skip_unknown form x placement that the recursive streaming parse equals the fold over the flattened statements and that resolution is location-major, reader-minor; stores are materialised with poisoned files at every non-first placement and parsed by gin (applied statements, provenance, returned tree, errors, multi-file entry point).',
-          'Statements rendered one per line; package-relative names through the Python path are not in the model.',
+          'Statements rendered one per line. Readers: open(), gin\'s Python-path resource reader (a package-relative include), a custom in-memory reader.',
           'DESIGN.md section 6 C14'),
   'C15': ('model_checking',
           'TLA+ spec GinParse.tla (C15_Reduced, C15_KnownApplied, C15_UnlistedStillError) model-checked with TLC; TLC-exported stores parsed by gin under every form of skip_unknown',
